@@ -8,13 +8,14 @@ from . import run
 
 # root of this verification tree (normally /verif; a snapshot under /root/.vp/runs/<n>/verif for `vp run`)
 VERIF = os.path.dirname(os.path.dirname(os.path.dirname(os.path.realpath(__file__))))
-BIN = VERIF + "/target/e2e/debug/trampoline"
+E2E_DIR = VERIF + "/target/e2e" + run.TAG
+BIN = E2E_DIR + "/debug/trampoline"
 
 def build():
     env = dict(os.environ, CARGO_NET_OFFLINE="true")
     for k in ("CARGO_TARGET_DIR", "CARGO_BUILD_TARGET_DIR", "RUSTFLAGS", "CARGO_ENCODED_RUSTFLAGS"):
         env.pop(k, None)
-    p = subprocess.run(["cargo", "build", "--offline", "--manifest-path", "/repo/Cargo.toml", "--target-dir", VERIF + "/target/e2e"],
+    p = subprocess.run(["cargo", "build", "--offline", "--manifest-path", run.REPO + "/Cargo.toml", "--target-dir", E2E_DIR],
                        env=env, capture_output=True, text=True)
     if p.returncode != 0:
         raise run.ToolError("the plugin does not build:\n" + p.stderr[-3000:])
@@ -310,7 +311,7 @@ def templates():
             "htlcs": [{"hash": "h1", "inv": 1, "amt": A, "total": A, "exp": 1000, "rel": 500},
                       {"hash": "h2", "inv": 2, "amt": A, "total": A, "exp": 1000, "rel": 500},
                       {"hash": "h3", "inv": 3, "amt": A, "total": A, "exp": 1000, "rel": 500}], "probe": []}
-    p = VERIF + "/work/e2e_scen.json"
+    p = VERIF + "/work/e2e_scen" + run.TAG + ".json"
     json.dump(scen, open(p, "w"))
     out = subprocess.run([run.VFH, "mkreq", p], capture_output=True, text=True)
     if out.returncode != 0:
